@@ -102,6 +102,13 @@ impl Run {
         }
     }
     pub fn violation(&self, key: String, replay: Value) {
+        if key.starts_with("panic") && last_panic().1.contains("GROUND_BUDGET") {
+            // the engine's own expansion budget, not a verdict about anthem
+            self.cap_hit.fetch_add(1, Ordering::Relaxed);
+            self.sample_force(json!({"cap_hit": "grounding budget exhausted", "state": replay}));
+            clear_panic();
+            return;
+        }
         let mut v = self.violations.lock().unwrap();
         if v.len() < 100000 {
             v.push(Violation { key, replay });
